@@ -192,6 +192,9 @@ func (session *PubSession) runLoopUdp() error {
 		session.feedPacket(b)
 		return true
 	})
+	// the unpacker belongs to this goroutine (the only one that feeds it): its closing
+	// statistics are logged here, after the last packet, not by whoever calls Dispose
+	session.unpacker.Dispose()
 	return err
 }
 
@@ -228,6 +231,8 @@ func (session *PubSession) runLoopTcp() error {
 
 				session.feedPacket(b)
 			}
+			// see runLoopUdp: logged by the goroutine that fed the unpacker
+			session.unpacker.Dispose()
 		}()
 	}
 }
@@ -263,8 +268,6 @@ func (session *PubSession) dispose(err error) error {
 			}
 			retErr = session.udpConn.Dispose()
 		}
-
-		session.unpacker.Dispose()
 	})
 	return retErr
 }
